@@ -16,7 +16,7 @@ pub const FLOORS: &[&str] = &[
     "continue:refused", "stepped:BR_taken", "stepped:BR_untaken", "stepped:JMP", "stepped:RET",
     "stepped:JSR", "stepped:JSRR", "stepped:CALL", "stepped:in_recursion", "si_beyond_end",
     "end:detached_halt", "end:exit_command", "stack_on", "stack_off", "fixed", "random", "long_running",
-    "more_than_65536_instructions_between_pauses",
+    "more_than_65536_instructions_between_pauses", "breakpoint_by_label_offset",
 ];
 
 pub struct Fixed {
@@ -318,7 +318,20 @@ fn random_case(seed: u64, i: u64) -> CaseOut {
     };
     let lay = if rng.bool() { Layout::canonical() } else { Layout::random(&mut rng) };
     let text = render(&built.program, &lay, &mut rng).text;
-    let cmds = random_script(&mut rng, img.origin(), img.words.len() as u16, stack, 10);
+    let mut cmds = random_script(&mut rng, img.origin(), img.words.len() as u16, stack, 10);
+    // breakpoints written as LABEL+k / ^k instead of a number, in front of the script
+    if !img.labels.is_empty() && rng.chance(1, 3) {
+        for _ in 0..1 + rng.below(3) {
+            let (name, idx) = rng.pick(&img.labels).clone();
+            let base = img.origin().wrapping_add(idx as u16);
+            let k = rng.range(-3, 6) as i32;
+            let loc = if rng.chance(1, 4) { crate::refdbg::Loc::Pc(rng.range(0, 6) as i32) } else { crate::refdbg::Loc::Label(name, base, k) };
+            let c = if rng.chance(1, 5) { Cmd::BreakRemoveLoc(loc) } else { Cmd::BreakAddLoc(loc) };
+            let at = rng.below(cmds.len() as u64 / 2 + 1) as usize;
+            cmds.insert(at, c);
+        }
+        out.class("breakpoint_by_label_offset");
+    }
     let lines = script_lines(&cmds, seed ^ i);
     let sep = *rng.pick(&[";", "\n", "\n", "mix"]);
     out.class("random");
